@@ -23,13 +23,17 @@ THEOREMS = ['byte_rt', 'byte_overflow', 'bool_rt', 'u32_rt', 'u32_overflow', 'st
 # functions of the code whose Lean definitions are regenerated from the source on every run (harness/translate_logic.py); `GenLogic.<name>_eq_model`
 # (lean/SshAudit/Props/GenLogic*.lean) ties each to the hand-written model function the theorems above are about
 GEN_LOGIC = ['ssh1_crc32_table', 'ssh1_crc32_calc', 'mpint_length', 'send_packet_framing', 'read_packet1_lengths', 'read_packet2_lengths', 'parse_mpint', 'mpint2_pad_fmt', 'create_mpint', 'mpint1_nbytes', 'kex_write', 'kex_parse', 'pkm_write', 'pkm_parse']
-TECHNIQUE = 'Lean 4 theorems (induction, omega, kernel-evaluated 256-entry CRC table) over a hand-written codec model + differential correspondence with the Python codecs'
+TECHNIQUE = ('Lean 4 theorems (induction, omega, kernel-evaluated 256-entry CRC table) over a hand-written codec model; the mpint writer and reader, the CRC, the packet length '
+             'arithmetic and the KEXINIT / SSH-1 public-key message writers and parsers are regenerated from the Python source by a translator on every run and proved equal to that model; '
+             'differential correspondence with the Python codecs')
 LEVEL_TEXT = ('Round-trip, framing and CRC statements are proved for every value and every byte string (unbounded) about the Lean model of the '
               'buffer classes; the model is executed by a compiled driver and compared op-by-op with the real ReadBuf/WriteBuf/SSH_Socket/'
               'SSH1_CRC32/SSH2_Kex/SSH1_PublicKeyMessage on boundary-heavy generated inputs; an independent oracle replays the round trips on the real code.')
 LEVEL_NOTE = ('Trusted: Lean kernel, the correspondence harness and its generators, CPython struct/io. mpint2 is proved for all integers after the D01 repair '
               '(fix: commit in /repo); framing is proved against the repaired read_packet (D16). SSH-1 mpints of negative sign do not round-trip (format is unsigned): '
-              'known finding D02, proved as a negation. kexinit_reencode / pkm round trip are covered by correspondence (re-encode ops), not yet by theorems.')
+              'known finding D02, proved as a negation. Regenerated from the source and proved equal to the model (lost ties are printed): _create_mpint, _parse_mpint, read_mpint2 pad choice, '
+              'read_mpint1 byte count, SSH2_Kex.write/parse, SSH1_PublicKeyMessage.write/parse, CRC table and fold, send/read_packet arithmetic; _bitlength = int.bit_length is tied by correspondence only. '
+              'kexinit_reencode / pkm round trip are covered by correspondence (re-encode ops), not yet by theorems.')
 
 
 class FakeSock:
